@@ -7,7 +7,7 @@ class Engine:
     LEVEL = "model_checking"
 
     def run(self, ctx):
-        thorough = ctx.tier == "thorough"
+        thorough = (ctx.only.get("tier", ctx.tier) if ctx.only else ctx.tier) == "thorough"
         ctx.rule("every instruction class and macro-instruction class of ppci.arch.riscv (isa, rvcisa) x {register "
                  "sweeps (quick: x0 x1 x2 x8 x9 x10 x15 x16 x31), diagonal, in-range boundary immediates / "
                  "displacements from TLC}; ppci supplies the bytes and used_registers / defined_registers / clobbers; "
